@@ -11,6 +11,7 @@ import (
 	"strconv"
 	"sync"
 	"testing"
+	"time"
 
 	"verif/harness/checks/c20/world"
 	"verif/harness/engine"
@@ -25,15 +26,23 @@ func TestRace(t *testing.T) {
 	world.Install()
 	ops := world.CallOps()
 	pairs := 0
+	shard, shards := 0, 1
+	fmt.Sscanf(os.Getenv("C20_RACE_SHARD"), "%d/%d", &shard, &shards)
+	k := 0
 	for i := 0; i < len(ops); i++ {
 		for j := i; j < len(ops); j++ {
 			name := ops[i].Name + "|" + ops[j].Name
 			if only != "" && only != "all" && only != name {
 				continue
 			}
+			k++
+			if shards > 1 && k%shards != shard {
+				continue
+			}
 			pairs++
 			fmt.Fprintf(os.Stderr, "C20RACE pair=%s\n", name)
 			w := world.Build()
+			w.PollInterval = 25 * time.Millisecond // real time here; a too short interval makes the client back off by 5 s
 			for it := 0; it < iters; it++ {
 				var wg sync.WaitGroup
 				start := make(chan struct{})
